@@ -10,6 +10,7 @@ import (
 	"strings"
 	"time"
 
+	webp "github.com/deepteams/webp"
 	"github.com/deepteams/webp/animation"
 	"github.com/deepteams/webp/internal/zzverif/bfs"
 	"github.com/deepteams/webp/internal/zzverif/fw"
@@ -320,6 +321,47 @@ func aeLargePictures(seed int64, alphaOnly bool) []aePic {
 type aeOp struct {
 	Pic int
 	Dur int // milliseconds
+	Raw int // 0: AddFrame(picture); k>0: the k-th pre-encoded-frame operation of aeRawOps
+}
+
+// A pre-encoded frame handed to the encoder: through AddRawFrame (own offset, blend and dispose)
+// or as AddFrame(NewBitstreamFrame(...)). What it shows is defined by the container's compositing
+// rules; the pictures given to AddFrame before and after it must still play back exactly.
+type aeRaw struct {
+	name      string
+	bitstream []byte
+	img       *image.NRGBA // what the bitstream decodes to
+	x, y      int
+	noBlend   bool
+	dispose   bool
+	asImage   bool // AddFrame(NewBitstreamFrame(...)) instead of AddRawFrame
+}
+
+func aeRawOps(seed int64) []aeRaw {
+	bits := func(m *image.NRGBA) []byte {
+		f, err := riffwalk.Parse(mustEncode(m, &webp.EncoderOptions{Lossless: true, Quality: 75, Exact: true}))
+		if err != nil || len(f.Frames) != 1 {
+			panic("c08: cannot build a raw frame")
+		}
+		return f.Frames[0].Bitstream
+	}
+	full := image.NewNRGBA(image.Rect(0, 0, aeW, aeH))
+	for y := 0; y < aeH; y++ {
+		for x := 0; x < aeW; x++ {
+			full.SetNRGBA(x, y, color.NRGBA{uint8(20 + 9*x), uint8(240 - 7*y), 77, 255})
+		}
+	}
+	small := image.NewNRGBA(image.Rect(0, 0, 4, 4))
+	for y := 0; y < 4; y++ {
+		for x := 0; x < 4; x++ {
+			small.SetNRGBA(x, y, color.NRGBA{uint8(250 - 30*x), 5, uint8(40 * y), uint8(128 + 127*((x+y)%2))})
+		}
+	}
+	return []aeRaw{
+		{name: "raw-full-noblend", bitstream: bits(full), img: full, noBlend: true},
+		{name: "raw-4x4@2,2-blend-dispose", bitstream: bits(small), img: small, x: 2, y: 2, dispose: true},
+		{name: "bitstream-frame-full", bitstream: bits(full), img: full, asImage: true},
+	}
 }
 
 type aeConfig struct {
@@ -334,6 +376,7 @@ type aeConfig struct {
 type aeSys struct {
 	w, h      int // canvas
 	pics      []aePic
+	raws      []aeRaw
 	ops       []aeOp
 	cfg       aeConfig
 	alphaOnly bool // C18: compare the alpha channel only
@@ -347,7 +390,7 @@ func aeCoreOps(pics []aePic) []aeOp {
 	for i, p := range pics {
 		switch p.name {
 		case "base", "binary", "binary+1px", "binary+1px-recoloured", "binary+other-px", "semi-band", "semi-band-1px", "semi-band-opaque-px", "small-5x3", "small-3x5":
-			ops = append(ops, aeOp{i, 100})
+			ops = append(ops, aeOp{Pic: i, Dur: 100})
 		}
 	}
 	return ops
@@ -357,6 +400,10 @@ func (s *aeSys) NOps(depth int) int { return len(s.ops) }
 func (s *aeSys) Describe(h []int) string {
 	var p []string
 	for _, i := range h {
+		if k := s.ops[i].Raw; k > 0 {
+			p = append(p, fmt.Sprintf("%s/%dms", s.raws[k-1].name, s.ops[i].Dur))
+			continue
+		}
 		p = append(p, fmt.Sprintf("%s/%dms", s.pics[s.ops[i].Pic].name, s.ops[i].Dur))
 	}
 	return fmt.Sprintf("cfg{%s} frames[%s]", s.cfg.Name, strings.Join(p, ", "))
@@ -441,12 +488,48 @@ func (s *aeSys) Exec(h []int) (st bfs.Step) {
 		return bfs.Step{Violation: fmt.Sprintf("NewEncoder returned nil for a %dx%d canvas", s.w, s.h)}
 	}
 	var want []run
+	var model []refdec.RFrame // the same history as the container's compositing rules see it
+	anyRaw := false
 	for _, i := range h {
 		op := s.ops[i]
+		if op.Raw > 0 {
+			rw := &s.raws[op.Raw-1]
+			anyRaw = true
+			var err error
+			if rw.asImage {
+				err = enc.AddFrame(animation.NewBitstreamFrame(rw.bitstream, rw.img.Rect.Dx(), rw.img.Rect.Dy()), time.Duration(op.Dur)*time.Millisecond)
+			} else {
+				bl, dp := animation.BlendAlpha, animation.DisposeNone
+				if rw.noBlend {
+					bl = animation.BlendNone
+				}
+				if rw.dispose {
+					dp = animation.DisposeBackground
+				}
+				err = enc.AddRawFrame(rw.bitstream, time.Duration(op.Dur)*time.Millisecond, rw.x, rw.y, bl, dp)
+			}
+			if err != nil {
+				return bfs.Step{Violation: "a valid pre-encoded frame was rejected: " + err.Error()}
+			}
+			model = append(model, refdec.RFrame{X: rw.x, Y: rw.y, Img: rw.img, NoBlend: rw.noBlend, Dispose: rw.dispose})
+			want = append(want, run{nil, op.Dur})
+			continue
+		}
 		if err := enc.AddFrame(s.pics[op.Pic].img, time.Duration(op.Dur)*time.Millisecond); err != nil {
 			return bfs.Step{Violation: "AddFrame rejected a valid frame: " + err.Error()}
 		}
 		want = append(want, run{s.pics[op.Pic].full, op.Dur})
+		model = append(model, refdec.RFrame{Img: s.pics[op.Pic].full, NoBlend: true})
+	}
+	if anyRaw {
+		// a picture given to AddFrame must show exactly that picture; a pre-encoded frame shows
+		// what the compositing rules make of it on top of what was shown before
+		shown := refdec.Compose(s.w, s.h, model)
+		for k := range want {
+			if want[k].canvas == nil {
+				want[k].canvas = shown[k]
+			}
+		}
 	}
 	// state key before Close (Close marks the encoder closed)
 	hs := bfs.NewHasher("w")
@@ -587,7 +670,7 @@ func (s *aeSys) compare(who string, got, want []run, timing bool) string {
 func aeOps(pics []aePic, alphaOnly bool) []aeOp {
 	var ops []aeOp
 	for i := range pics {
-		ops = append(ops, aeOp{i, 100})
+		ops = append(ops, aeOp{Pic: i, Dur: 100})
 	}
 	// special durations on a few pictures
 	for _, i := range []int{0, 1} {
@@ -595,14 +678,14 @@ func aeOps(pics []aePic, alphaOnly bool) []aeOp {
 			if alphaOnly && d == 1 {
 				continue
 			}
-			ops = append(ops, aeOp{i, d})
+			ops = append(ops, aeOp{Pic: i, Dur: d})
 		}
 	}
 	if !alphaOnly {
 		for i := range pics {
 			if pics[i].name == "binary" {
 				for _, d := range []int{0, 0xFFFFFF} {
-					ops = append(ops, aeOp{i, d})
+					ops = append(ops, aeOp{Pic: i, Dur: d})
 				}
 			}
 		}
@@ -616,12 +699,19 @@ func registerAnimEnc(id string, alphaOnly bool, configs func(e *fw.Env) []aeConf
 			pics := aeLargePictures(seed, alphaOnly)
 			var ops []aeOp
 			for i := range pics {
-				ops = append(ops, aeOp{i, 100})
+				ops = append(ops, aeOp{Pic: i, Dur: 100})
 			}
 			return &aeSys{w: aeLW, h: aeLH, pics: pics, ops: ops, cfg: cfg, alphaOnly: alphaOnly}
 		}
 		pics := aePictures(seed, alphaOnly)
-		return &aeSys{w: aeW, h: aeH, pics: pics, ops: aeOps(pics, alphaOnly), cfg: cfg, alphaOnly: alphaOnly}
+		sys := &aeSys{w: aeW, h: aeH, pics: pics, ops: aeOps(pics, alphaOnly), cfg: cfg, alphaOnly: alphaOnly}
+		if !alphaOnly {
+			sys.raws = aeRawOps(seed)
+			for k := range sys.raws {
+				sys.ops = append(sys.ops, aeOp{Dur: 100, Raw: k + 1})
+			}
+		}
+		return sys
 	}
 	fw.Register(&fw.Check{
 		ID: id, Level: "model_checking", Shards: shards16, Rule: rule,
@@ -641,6 +731,9 @@ func registerAnimEnc(id string, alphaOnly bool, configs func(e *fw.Env) []aeConf
 					if pass == 1 {
 						// second search: reduced alphabet, one level deeper
 						sys.ops = aeCoreOps(sys.pics)
+						if len(sys.raws) > 1 {
+							sys.ops = append(sys.ops, aeOp{Dur: 100, Raw: 2}) // the off-origin, blended, disposing one
+						}
 						dep++
 						if len(sys.ops) == 0 {
 							continue
@@ -715,7 +808,7 @@ func init() {
 			}
 			return 4
 		},
-		"explicit-state BFS over the real lossless AnimEncoder on an 8x8 canvas: every AddFrame history up to depth 3 (thorough 4; a 10-picture core alphabet one level deeper) over 25 (picture, duration) operations (18 pictures: base, 1-pixel changes at even/odd coordinates, 2x2 block, all changed, translucent band with unchanged translucent neighbours, pixel becoming transparent, binary alpha, smaller than the canvas in three shapes, foreign-stride view, fully transparent; durations 0/1/100/0xFFFFFF ms) x 8 configurations (Kmin/Kmax x loop count), and a third search on a 24x16 canvas over 13 pictures that have more colours than a palette holds (every pixel its own colour; changed corner pixels whose bounding box is the canvas; a changed region followed by unchanged pixels; transparent pixels that come only after 256 colours; translucent band; a half-random picture followed by a flat one, for which the full-canvas key frame beats the sub-frame); every history is closed and played back by animation.DecodeBytes+AnimDecoder and by the reference stack and compared with the run-length-merged input list, display times, total duration, loop count, canvas size")
+		"explicit-state BFS over the real lossless AnimEncoder on an 8x8 canvas: every AddFrame history up to depth 3 (thorough 4; a 10-picture core alphabet one level deeper) over 28 operations (3 pre-encoded frames handed over through AddRawFrame - full canvas without blending; 4x4 at (2,2) blended and disposed to background - and through AddFrame(NewBitstreamFrame), whose effect is defined by the compositing rules while the pictures added before and after them must still play back exactly; 25 (picture, duration) operations on 18 pictures: base, 1-pixel changes at even/odd coordinates, 2x2 block, all changed, translucent band with unchanged translucent neighbours, pixel becoming transparent, binary alpha, smaller than the canvas in three shapes, foreign-stride view, fully transparent; durations 0/1/100/0xFFFFFF ms) x 8 configurations (Kmin/Kmax x loop count), and a third search on a 24x16 canvas over 13 pictures that have more colours than a palette holds (every pixel its own colour; changed corner pixels whose bounding box is the canvas; a changed region followed by unchanged pixels; transparent pixels that come only after 256 colours; translucent band; a half-random picture followed by a flat one, for which the full-canvas key frame beats the sub-frame); every history is closed and played back by animation.DecodeBytes+AnimDecoder and by the reference stack and compared with the run-length-merged input list, display times, total duration, loop count, canvas size")
 	registerAnimEnc("C18", true,
 		func(e *fw.Env) []aeConfig {
 			var out []aeConfig
